@@ -10,17 +10,35 @@ def strip_comments(s):
     return re.sub(r"//[^\n]*", "", s)
 
 
+def fn_span(src, name):
+    m = re.search(r"fn\s+%s\b[^{;]*\{" % name, src)
+    if not m:
+        return None
+    depth, i = 1, m.end()
+    while depth and i < len(src):
+        depth += {"{": 1, "}": -1}.get(src[i], 0)
+        i += 1
+    return (m.start(), i)
+
+
 def lint_r4_lock(repo):
-    """R4: every use of the shared `state` field of the batching channel goes through `.lock()`."""
+    """R4: every use of the shared `state` field of the batching channel is an acquisition of its mutex: `.lock()` or
+    `.try_lock()` (both are modelled by the lock shim of specs/_shared/batcher_types.rs: lock always yields the state,
+    try_lock may fail) - except inside `Receiver::exec`, whose critical sections are elided site by site (`.lock()` only)."""
     out = []
     for f in ["batcher/src/lib.rs", "batcher/src/sync.rs", "batcher/src/tokio.rs"]:
         p = os.path.join(repo, f)
         if not os.path.exists(p):
             continue
         src = strip_comments(open(p).read())
-        for m in re.finditer(r"shared\s*\.\s*state\b(?!\s*\.\s*lock\s*\(\s*\))", src):
-            # the struct field declaration `state: Mutex<..>` does not match `shared.state`
-            out.append("R4 premise: %s:%d uses shared.state without .lock()" % (f, src.count("\n", 0, m.start()) + 1))
+        exec_span = fn_span(src, "exec") if f.endswith("lib.rs") else None
+        for m in re.finditer(r"shared\s*\.\s*state\b", src):
+            rest = src[m.end():m.end() + 40]
+            in_exec = exec_span and exec_span[0] <= m.start() < exec_span[1]
+            ok = re.match(r"\s*\.\s*lock\s*\(\s*\)", rest) or (not in_exec and re.match(r"\s*\.\s*try_lock\s*\(\s*\)", rest))
+            if not ok:
+                # the struct field declaration `state: Mutex<..>` does not match `shared.state`
+                out.append("R4 premise: %s:%d uses shared.state without .lock()%s" % (f, src.count("\n", 0, m.start()) + 1, "" if in_exec else " / .try_lock()"))
     src = strip_comments(open(os.path.join(repo, "batcher/src/lib.rs")).read())
     if not re.search(r"state\s*:\s*Mutex\s*<\s*State\s*<", src):
         out.append("R4 premise: batcher/src/lib.rs: the shared state is no longer a `Mutex<State<..>>` field")
@@ -68,7 +86,7 @@ def lint_r10_version(repo):
     return out
 
 
-LINTS = {"C06": [lint_r4_lock], "C07": [lint_r4_lock], "C09": [lint_r4_lock], "C18": [lint_r15_tls, lint_r10_version], "C15": [lint_r10_version]}
+LINTS = {"C06": [lint_r4_lock], "C07": [lint_r4_lock], "C08": [lint_r4_lock], "C09": [lint_r4_lock], "C18": [lint_r15_tls, lint_r10_version], "C15": [lint_r10_version]}
 
 
 def run(prop, repo):
